@@ -12,7 +12,7 @@ WALL = {'quick': 100, 'thorough': 1500}
 CHUNK = 60
 REQUIRED_PROBES = ['route_len_1', 'route_len_2', 'route_len_3', 'with_buffer', 'without_buffer', 'padded_block', 'extent_eq_procs', 'leading_extent_1', 'arrays_reused_across_transposes']
 RULE = ("Every check: in 12% of the cases one or two bystander ranks share the simulated job and the code under test runs on world.Split(...); one case in HASHSEED_EVERY is re-run in fresh interpreters under other string-hash seeds and every rank's trace (collectives, data sent, result) must agree. "
-        'Also: 8% of the shapes have an extent below the process count (judged for silently wrong data only), arrays reused across transposes in 30%, fresh str objects for the layout names at every call. '
+        'Also: 8% of the shapes have an extent below the process count (judged for silently wrong data only), arrays reused across transposes in 30%, fresh str objects for the layout names at every call, some requests repeated later on the same handler (40%), 7-13 processes along one direction (4%). '
         'case = (array rank 2-4, global shape, process grid incl. leading extent 1, 1-6 dimension '
         'orderings, payload dtype, list of (source, destination, buffer?) transposes, schedule/fault '
         'configuration), all drawn from the case seed; every rank builds the LayoutHandler and performs '
